@@ -1,22 +1,47 @@
 #!/usr/bin/env python3
-"""Regenerates /verif/MANIFEST.json from the table below (keeps the file valid at all times)."""
+"""Regenerates /verif/MANIFEST.json from the table below (keeps the file valid at all times).
+A property is registered as a check only when it is in BUILT; everything else is listed under
+not_applicable with the reason from NOT_YET."""
 import json, os, subprocess
 ROOT = os.path.dirname(os.path.dirname(os.path.abspath(__file__)))
 
-TECH = "exhaustive deviation-bounded schedule exploration of the real client (stateless DFS by prefix replay + explicit-state pruning)"
+SCHED = "exhaustive deviation-bounded schedule exploration of the real client (stateless DFS by prefix replay + explicit-state pruning on the real session state)"
+SWEEP = "exhaustive enumeration of a finite input space on the real client (every case executed, differential oracle: independent MQTT 5 reference codec)"
+CLOSE = "explicit-state breadth-first closure of the real client's reachable state graph (fixpoint over a finite event alphabet)"
+TWIN = "exhaustive enumeration of schedule pairs (twin runs of the real client differing in one dimension) with trace-equality oracle"
+BASE = "Trusted base: mqtt_ref (independent codec written from the OASIS text, self-tested each run), the VirtualIo/virtual-clock harness and the broker model. Assumes transport futures are cancel-safe and write never returns Ok(0) for a non-empty buffer. Bounded: holds for the alphabets, lengths and deviation budgets listed in the evidence file, not beyond."
+
 CHECKS = {
- "C01": dict(cat="model_checking", ref="DESIGN.md §5 C01",
-   text="Every execution of the real Session/Connection within the bounds (all programs over the operation alphabet, every partial-write size, every pending/cancel point, transport faults, broker orders, resumed/fresh reconnects, deviation budget) is run and its outbound byte stream is checked by an independent strict MQTT 5 decoder plus an exact packet-continuity monitor. Exhaustive inside the stated bounds, not beyond.",
-   note="Trusted base: mqtt_ref (independent codec, self-tested each run), the VirtualIo/clock harness, the broker model. Assumes transport futures are cancel-safe and never return Ok(0).",
-   tech=TECH),
+ "C01": dict(tech=SCHED, text="Every execution of the real Session/Connection within the bounds (all programs over the operation alphabet, every partial-write size, every pending/cancel point, transport faults, broker orders, resumed/fresh reconnects, deviation budget) is run; its outbound byte stream is checked by an exact packet-continuity monitor on offered/accepted buffers plus an independent strict MQTT 5 decoder (W1 CONNECT first and once, W2 no packet starts inside another, W3 well-formed, W4 nothing after DISCONNECT)."),
+ "C02": dict(tech=SCHED, text="Connection death is injected at every I/O call of every operation, with cancellations, ack orders and up to 3-4 consecutive resumed reconnects; per execution the reference model checks that every accepted QoS 1 message is retransmitted exactly once per resumed connection (same id, DUP, byte-identical), never twice on one connection, never after its PUBACK, in acceptance order, and is acknowledged by the end of a benign continuation."),
+ "C03": dict(tech=SCHED, text="Up to 3-4 concurrent QoS 2 exchanges with every PUBREC/PUBCOMP order, failing PUBREC, crash between any two of the four steps and resumed reconnects; monitors X1-X5 (PUBREL only after success PUBREC, no PUBLISH after PUBREC, PUBREL replayed once per resumed connection, failing PUBREC ends the exchange, replayed PUBRELs keep PUBREC order)."),
+ "C04": dict(tech=SCHED, text="Broker-originated QoS 0/1/2 publishes (ids 1, 258, 65535), DUP retransmissions, PUBREL for pending and unknown ids, interleaved with outbound traffic, cancellations, partial reads, full transmit arena and resumed/fresh reconnects; monitors: delivered message equals what was sent and is delivered exactly once, acks are exactly the owed ones in arrival order with the right reason, a fresh session forgets pending ids."),
+ "C05": dict(tech=SCHED, text="Sequences of up to 3-4 connections with session-present / session-lost answers, rejected, garbled, truncated and cancelled handshakes and assigned client ids, with any mix of in-flight requests at each loss; monitors S1 clean-start bit, S2 client id, S3 fresh => Connected, nothing stale ever offered, handles invalidated, S4 resumed => Reconnected and everything unacknowledged retransmitted exactly once before any new request."),
+ "C06": dict(tech=SCHED, text="Receive Maximum 1, 2, 3 (also changing between connections) and 9/65535/absent (local clamp 8) with every mix of QoS 1/2, ack order, failing acks, cancellations and resumed reconnects; the broker-side count of unresolved PUBLISH packets is compared with the window of the current CONNACK after every completed PUBLISH; refused publishes must leave no trace; no acknowledgement may fail for lack of local metadata."),
+ "C07": dict(tech=SCHED, text="The identifier counter is placed next to the 16-bit wrap (65534, 65535) or aged round to a live identifier; every program over publish/subscribe/unsubscribe/poll with operations left in flight is run and every identifier-bearing packet offered is compared with the set of identifiers still awaiting their final acknowledgement. The counter setter (hook) is validated against a hook-free history of 65535 refused publishes that must reach the same session fingerprint."),
+ "C08": dict(tech=SWEEP, text="Every byte string up to length 2 (quick) / 3 (thorough) plus all 3/4-byte strings behind 16 plausible first bytes, every first byte x 22 remaining-length forms x body lengths, and a grammar of all server packet types with every single-byte substitution / truncation / extension, each fed whole and byte-by-byte after CONNACK and in place of CONNACK; expected behaviour comes from the independent reference decoder (valid => exact field values, listed malformation => invalid-packet, dead handle, nothing acted upon); any panic/overflow/out-of-bounds is a violation."),
+ "C09": dict(tech=SWEEP, text="Full product of CONNECT configurations, PUBLISH/SUBSCRIBE/UNSUBSCRIBE/DISCONNECT/ack requests over boundary values, property subsets, remaining-length boundaries and buffer sizes from too small to ample; the bytes accepted by the transport are decoded by the independent reference decoder and compared field by field with the request; on any error result nothing of the request may have been offered."),
+ "C10": dict(tech=CLOSE, text="For each (keep-alive, server keep-alive) pair the reachable states of the real client under the event alphabet {timer fires exactly / late, PINGRESP now / never, inbound QoS 0, cancel + publish, poll again} are closed breadth-first to a fixpoint (timer offsets are relative, so the graph is finite); on every transition the monitors check the gap between completed client packets against the effective keep-alive, that keep-alive 0 sends no ping, and that an unanswered PINGREQ disconnects at, and not before, the round-trip bound."),
+ "C11": dict(tech=SCHED, text="Every fault kind (write/flush/read error, EOF, server DISCONNECT, six malformed-input classes, keep-alive timeout, disconnect()) at every I/O call of every operation, followed by every sequence of further calls from the nine operations and the status queries; after the first fatal result is_connected/can_publish must stay false, results must be Disconnected (disconnect => Ok) and the transport call counters must not move."),
+ "C12": dict(tech=SCHED, text="Every state reached by programs with faults, cancellations at any await point, bad handshakes, malformed broker data, dropped / forgotten / into_inner handles and arena-filling retained payloads is followed by the benign continuation: connect() on a healthy transport to a conformant broker must succeed, start with one complete CONNECT, carry nothing partial over and drain to quiescence."),
+ "C13": dict(tech=TWIN, text="For every program and every await point each operation reaches (every pending read, write after any accepted prefix, flush, timer) the cancelled execution is compared with its uncancelled twin under a deterministic responsive broker: per class (requests, acks, PUBRELs, deliveries) the byte-exact sequences must agree, or equal those of the program without the cancelled request iff nothing of it was offered and the session shows no trace of it."),
+ "C14": dict(tech=SWEEP, text="Broker maxima from 2 up, request sizes around the limit for every send site (QoS 0/1/2 publish, subscribe, unsubscribe, disconnect, acks, PUBREL, PINGREQ, replay on a later connection with a smaller maximum), receive buffers 5..64 with inbound packets around the buffer size; no completely offered packet may exceed the current maximum, oversize requests fail with packet-too-large leaving nothing behind, CONNECT advertises the receive-buffer size, oversize inbound packets end the connection."),
+ "C15": dict(tech=TWIN, text="All 2^(n-1) chunkings of short inbound streams and every partial-write pattern within the budget are run against the unfragmented twin of the same program; delivered messages, operation results and the outbound byte stream must be identical."),
+ "C16": dict(tech=SCHED, text="Every state reached by programs with partial writes, cancellations, faults, failed handshakes and failing acks is followed by the benign continuation (reconnect with session present if needed, then poll under a responsive broker): all requests complete, all owed acks are sent and the session is publish-quiescent within a bounded number of polls; poll returns Ok(None) only after wire progress; no operation exceeds the I/O watchdog; nothing is completely transmitted twice on one connection."),
+ "C17": dict(tech=CLOSE, text="Breadth-first closure over arena sizes and payload classes with publish / subscribe / QoS 0 / ack-any-id / reconnect events to a fixpoint per configuration; every retransmission must equal the first transmission except the DUP bit, and in every quiescent state a fixed probe battery must be accepted exactly as by a brand-new session."),
+ "C18": dict(tech=SCHED, text="Status of every handle ever issued is sampled after every step of every execution (all operation kinds, ack orders, failing reason codes, fresh/resumed reconnects, cancellations) and compared with the reference model (pending until the final ack was consumed in the issuing session, invalidated iff a fresh session replaced it); a failing reason code must be surfaced as the rejected error by exactly the operation that consumed it."),
+ "C19": dict(tech=SWEEP, text="All 27 property kinds x {publish, subscribe, unsubscribe, disconnect, will} with boundary values in several session states, empty filter lists, dead handle, and Maximum QoS x requested QoS x downgrade; expectation table transcribed from MQTT 5; a refused request must offer zero bytes and leave quiescence, quota and handle status unchanged."),
+ "C20": dict(tech=SWEEP, text="Response topics and correlation data over boundary lengths and byte values, at every position among other properties, with user properties added after reply(), and owned capacities around the actual sizes; the reply is published through the real client and decoded by the reference decoder."),
 }
-NOT_YET = {}
+BUILT = ["C01", "C02", "C03", "C04", "C05", "C06", "C07", "C08", "C11", "C12", "C16", "C18"]
+NOT_YET = "check not built yet in this revision of /verif (work in progress; DESIGN.md describes the planned check)"
+CATEGORY = "model_checking"
+
 props = [json.loads(l) for l in open(os.path.join(ROOT, "properties.jsonl"))]
-checks = []
-na = []
+checks, na = [], []
 for p in props:
     pid = p["id"]
-    if pid in CHECKS:
+    if pid in BUILT:
         c = CHECKS[pid]
         checks.append({
             "property_id": pid,
@@ -25,12 +50,12 @@ for p in props:
             "evidence_file": f"/verif/evidence/{pid}.json",
             "replay_cmd_template": "./check --replay {path}",
             "engine": "mcx",
-            "level_claimed": {"category": c["cat"], "text": c["text"], "design_ref": c["ref"]},
-            "level_note": c["note"],
+            "level_claimed": {"category": CATEGORY, "text": c["text"] + " Exhaustive inside the stated bounds, not beyond.", "design_ref": f"DESIGN.md section 5 {pid}"},
+            "level_note": BASE,
             "technique": c["tech"],
         })
     else:
-        na.append({"property_id": pid, "reason": NOT_YET.get(pid, "check not built yet in this revision of /verif (work in progress; the design in DESIGN.md claims it)")})
+        na.append({"property_id": pid, "reason": NOT_YET})
 hook_commits = subprocess.run(["git", "-C", "/repo", "log", "--format=%H", "--grep", "^verif-hooks"], capture_output=True, text=True).stdout.split()
 m = {
  "version": 1,
@@ -42,11 +67,11 @@ m = {
    "source_commits": hook_commits,
    "add_only": True,
  },
- "engines": [{"name": "mcx", "path": "/verif/mcx", "serves_properties": sorted(CHECKS.keys()),
-              "kind_free_text": "hand-rolled stateless model checker: drives the real minimq Session/Connection under a virtual transport, virtual clock and broker model; enumerates every choice vector within a deviation budget by prefix replay, prunes on a 128-bit key of the real session state"}],
+ "engines": [{"name": "mcx", "path": "/verif/mcx", "serves_properties": sorted(BUILT),
+              "kind_free_text": "hand-rolled stateless model checker: drives the real minimq Session/Connection under a virtual transport, virtual clock and broker model; enumerates every choice vector within a deviation budget by prefix replay, prunes on a 128-bit key of the real session state; breadth-first closure and exhaustive input sweeps for the properties over unbounded histories / input spaces"}],
  "checks": checks,
  "not_applicable": na,
- "notes": "All checks are exhaustive enumerations inside stated bounds (see evidence coverage.families[].bounds). Known genuine defects are listed in /verif/known_findings.json and reported as KNOWN-FINDING lines.",
+ "notes": "All checks are exhaustive enumerations inside stated bounds (see evidence coverage.families[].bounds). Genuine defects found are either repaired in /repo ('fix:' commits) or listed in /verif/known_findings.json and reported as KNOWN-FINDING lines; 'fixed' entries there suppress nothing.",
 }
 json.dump(m, open(os.path.join(ROOT, "MANIFEST.json"), "w"), indent=1)
 print("checks:", len(checks), "not_applicable:", len(na))
